@@ -258,10 +258,21 @@ func c07Case(rt *rapid.T, rec *vt.Rec) {
 		results := map[string]error{}
 		mk := func(name string, w ident) {
 			n := s.nonce(w.addr)
-			r := req{w, n, mustSign(w.key, "pool_withdraw", w.addr, n)}
+			// the owner may spell its address differently in each request (checksummed, lower case, upper-case digits):
+			// it is the same wallet and the same deposit
+			as := w.addr
+			switch rapid.IntRange(0, 5).Draw(rt, "spelling") {
+			case 0:
+				as = strings.ToLower(w.addr)
+				c.classes["race-other-spelling"] = true
+			case 1:
+				as = "0x" + strings.ToUpper(w.addr[2:])
+				c.classes["race-other-spelling"] = true
+			}
+			r := req{w, n, mustSign(w.key, "pool_withdraw", as, n)}
 			names = append(names, name)
 			fns = append(fns, func() {
-				err := s.pay.Withdraw(rpcCtx(), r.sig, r.w.addr, r.nonce)
+				err := s.pay.Withdraw(rpcCtx(), r.sig, as, r.nonce)
 				emu.Lock()
 				results[name] = err
 				emu.Unlock()
@@ -323,8 +334,9 @@ func c07Case(rt *rapid.T, rec *vt.Rec) {
 			if !sc.OK {
 				continue
 			}
-			okSettles[sc.Account]++
-			paid[sc.Account].Add(paid[sc.Account], sc.Pre)
+			acct := string(canonAccount(store.Account(sc.Account)))
+			okSettles[acct]++
+			paid[acct].Add(paid[acct], sc.Pre)
 		}
 		okTasks := map[string]int{}
 		for name, err := range results {
